@@ -4,6 +4,8 @@ set -e
 cd /verif/harness
 export CARGO_NET_OFFLINE=true
 cargo build --offline --quiet --target-dir target/std
+cargo build --offline --quiet --target-dir target/nostd --no-default-features
+cargo build --offline --quiet --target-dir target/serde --features with_serde
 cd /verif/spec
 for m in TraceWorld Tables mc/MC_Cc14 mc/MC_Pn mc/MC_Poll mc/MC_Sender mc/MC_Iso mc/MC_ShortMsg; do
   d=$(mktemp -d /verif/work/sany.XXXXXX); cp /verif/spec/*.tla /verif/spec/mc/*.tla $d/
